@@ -61,7 +61,8 @@ func ColorModelOf(name string) color.Model {
 }
 
 type SchemeSpec struct {
-	Predefined int       `json:"predefined"` // 0 = custom, 1..4 = ColorScheme8/16/24/32
+	Predefined int       `json:"predefined"`      // 0 = custom, 1..4 = ColorScheme8/16/24/32
+	Model      string    `json:"model,omitempty"` // colour model of the scheme; default: the foreground's
 	FG         ColorSpec `json:"fg"`
 	BG         ColorSpec `json:"bg"`
 }
@@ -77,7 +78,11 @@ func (s SchemeSpec) Scheme() barcode.ColorScheme {
 	case 4:
 		return barcode.ColorScheme32
 	}
-	return barcode.ColorScheme{Model: ColorModelOf(s.FG.Model), Foreground: s.FG.Color(), Background: s.BG.Color()}
+	m := s.Model
+	if m == "" {
+		m = s.FG.Model
+	}
+	return barcode.ColorScheme{Model: ColorModelOf(m), Foreground: s.FG.Color(), Background: s.BG.Color()}
 }
 
 type EncSpec struct {
